@@ -185,6 +185,9 @@ def analyse(fn, cursors, entry_safe=0, justified=None, noreturn=("libast_fatal_e
                     if cur is None:
                         return state
                     if kk is None:
+                        rr = X.strip(n["ch"][1])
+                        if rr.get("k") == "call" and X.callee_name(rr) in ("strlen", "__builtin_strlen") and cursor_offset(rr["ch"][1], cursors) == (d, 0) and n["op"] == "+=":
+                            return put(state, d, 0)     # p += strlen(p): exactly onto the terminator
                         if report:
                             checked[0] += 1
                             if not justified(n, state):
